@@ -2,7 +2,7 @@
 """Automatic behaviour-preserving variants of every function a rule module looks at (robustness of the rules against
 refactors that do not change behaviour; DESIGN.md 4.4).
 
-usage: autoequiv.py <PROP> [--transform rename|preinc|noop] [--bisect]
+usage: autoequiv.py <PROP> [--transform rename|preinc|noop|parens|unconst] [--bisect]
 
   rename : every local variable and parameter of every analysed function body gets a new name (whole-word replacement inside
            the function's line range, never after '.', '->' or '::'; names that coincide with a member/callee name used in the
@@ -94,7 +94,44 @@ def t_preinc(lines, fn):
     return cnt
 
 
-TRANSFORMS = {"rename": t_rename, "noop": t_noop, "preinc": t_preinc}
+def t_parens(lines, fn):
+    """redundant parentheses: `return E;` -> `return (E);` and `x = E;` -> `x = (E);` for one-line statements"""
+    cnt = 0
+    for i in range(fn["line"] - 1, min(fn["endline"], len(lines))):
+        l = lines[i]
+        if l.lstrip().startswith(("#", "//")) or '"' in l:
+            continue
+        m = re.match(r"^(\s*return\s+)([^;{}]+);(\s*(//.*)?)$", l.rstrip("\n"))
+        if m and m.group(2).strip() and not m.group(2).strip().startswith("{"):
+            lines[i] = "%s(%s);%s\n" % (m.group(1), m.group(2), m.group(3))
+            cnt += 1
+            continue
+        m = re.match(r"^(\s*(?:const\s+)?(?:int|float|double|bool|unsigned)\s+\w+\s*=\s*)([^;{}]+);(\s*(//.*)?)$", l.rstrip("\n"))
+        if m and "(" in m.group(2) and m.group(2).count("(") == m.group(2).count(")"):
+            lines[i] = "%s(%s);%s\n" % (m.group(1), m.group(2), m.group(3))
+            cnt += 1
+    return cnt
+
+
+def t_unconst(lines, fn):
+    """`const int x = ...` -> `int x = ...` for locals of builtin type (skips the function's own signature lines)"""
+    cnt = 0
+    depth_seen = False
+    for i in range(fn["line"] - 1, min(fn["endline"], len(lines))):
+        l = lines[i]
+        if not depth_seen:
+            if "{" in l:
+                depth_seen = True
+            continue
+        m = re.match(r"^(\s*)const\s+((?:unsigned\s+)?(?:int|float|double|bool|long)\s+\w+\s*(=|\())", l)
+        if m and "static" not in l:
+            lines[i] = m.group(1) + l[m.end(1) + len("const") :].lstrip()
+            lines[i] = m.group(1) + lines[i] if not lines[i].startswith(m.group(1)) else lines[i]
+            cnt += 1
+    return cnt
+
+
+TRANSFORMS = {"rename": t_rename, "noop": t_noop, "preinc": t_preinc, "parens": t_parens, "unconst": t_unconst}
 
 
 def variant(fns, transform, scratch):
